@@ -180,6 +180,52 @@ def enc_tuple(x):
 _NOISE_POLICY = None
 
 
+def _deep_nesting(ctx, out, rng):
+    """key order is irrelevant *at any depth*: a two-key dictionary buried d levels deep (d up to 60, under dictionaries,
+    lists or a mixture) in a field or in the context, built once in each key order - the two inquiries are equal, hash
+    equally and each survives the JSON round trip as an equal inquiry; changing the buried value makes them unequal"""
+    for d in list(range(1, 41)) + [50, 60]:
+        for wrap in ('dict', 'list', 'mixed'):
+            for field in ('subject', 'context'):
+                def build(inner):
+                    v = inner
+                    for i in range(d):
+                        w = wrap if wrap != 'mixed' else ('dict' if i % 2 else 'list')
+                        v = {'k': v} if w == 'dict' else [v]
+                    if field == 'context' and not isinstance(v, dict):
+                        v = {'k': v}
+                    return v
+                a = Inquiry(action='get', **{field: build({'x': 1, 'y': [2, {'p': 1, 'q': 2}]})})
+                b = Inquiry(action='get', **{field: build({'y': [2, {'q': 2, 'p': 1}], 'x': 1})})
+                c = Inquiry(action='get', **{field: build({'y': [2, {'q': 2, 'p': 3}], 'x': 1})})
+                out.evaluations += 1
+                out.count('deep-nesting:%s' % wrap)
+                desc = {'depth': d, 'wrapping': wrap, 'field': field}
+                prob = None
+                try:
+                    if not (a == b and b == a):
+                        prob = 'two inquiries that differ only in the key order of a dictionary %d levels deep are unequal' % d
+                    elif hash(a) != hash(b):
+                        prob = 'equal inquiries (key order differs %d levels deep) hash differently' % d
+                    elif a == c or hash(a) == hash(c) and False:
+                        prob = 'inquiries whose content differs %d levels deep compare equal' % d
+                    else:
+                        back = Inquiry.from_json(a.to_json())
+                        if not (back == a and hash(back) == hash(a)):
+                            prob = 'an inquiry nested %d levels deep does not survive the JSON round trip as an equal inquiry' % d
+                except RecursionError:
+                    out.count('deep-nesting:recursion-limit')
+                    continue
+                except Exception as e:
+                    prob = 'comparing / hashing / round-tripping raised %s' % type(e).__name__
+                if prob:
+                    f = Failure('oracle', desc, prob, None, prob, 'Vakt.C13.key_order_irrelevant / eq_hash / inquiry_roundtrip_equal', size=d)
+                    f.signature = 'deep-nesting'
+                    out.failures.append(f)
+                    return
+            out.nontriv('deep %d %s' % (d, wrap))
+
+
 def run(ctx):
     global _NOISE_POLICY
     _NOISE_POLICY = Policy('n1', subjects=[{'b': Eq(1), 'a': Eq(2)}], actions=[Eq('x')], resources=[{'z': Eq(1), 'y': Eq(0)}],
@@ -295,6 +341,7 @@ def run(ctx):
                         line=line)
             f.signature = 'model:' + desc['kind']
             out.failures.append(f)
+    _deep_nesting(ctx, out, rng)
     # process stability: the same hashes in fresh interpreters started with other PYTHONHASHSEED values
     seeds = ['0', '1', '42', 'random'] if ctx.tier == 'quick' else ['0', '1', '2', '3', '7', '42', '1000', '4294967295'] + ['random'] * 24
     helper = HASH_HELPER % REPO
